@@ -12,6 +12,7 @@ import SqiProofs.HnfEchelon
 import SqiProofs.QuatGroupIndex
 import SqiProofs.QuatO0
 import SqiGen.QuatAlg
+import SqiProofs.QuatAlgText
 import SqiGen.QuatMat
 import SqiGen.HnfCore
 import SqiProofs.HnfText
@@ -22,7 +23,7 @@ import SqiProofs.HnfText
      `H p`        Mathlib's `QuaternionAlgebra ℚ (-1) 0 (-p)`        `val p e`   value of a quat_alg_elem_t
      `spanL l`    ℤ-span in ℤ⁴ of a list of integer vectors         `ratLat L`  (1/denom)·ℤ-span(columns) ⊂ ℚ⁴
      `IsHNF m`    upper triangular, positive diagonal, 0 ≤ m[r][c] < m[r][r] for c > r (the C convention) -/
-open SqiModel.Quat SqiProofs.QuatAlg SqiProofs.QuatMat SqiProofs.Hnf SqiProofs.QuatLattice
+open SqiModel.Quat SqiProofs SqiProofs.QuatAlg SqiProofs.QuatMat SqiProofs.Hnf SqiProofs.QuatLattice
 
 namespace SqiProps.C14
 
@@ -100,6 +101,104 @@ theorem quat_alg_mul_translated_exact (p : ℤ) (a b : Elem) (ha : a.denom ≠ 0
   have h : r = _ := quat_alg_mul_translated p a b
   rw [h]
   exact algMul_val p a b ha hb
+
+/-! ### tie T (extension): the other straight-line bodies of algebra.c, re-extracted from the C text on every run.
+    `G.f` below is the GENERATED definition (`for i<4` loops unrolled, `ibz_gcd`/`ibz_div` as `Int.gcd`/`Int.tdiv`, calls of
+    translated functions kept as calls); `ofTup` reads the five `ibz_t` fields (denom, coord[0..3]) back as an element.
+    A changed operand / index / sign in any of these C bodies breaks the corresponding proof at `lake build`. -/
+
+/-- generated = hand model, for all inputs: `quat_alg_coord_add`, `quat_alg_coord_sub`, `quat_alg_equal_denom`,
+    `quat_alg_add`, `quat_alg_sub` -/
+theorem quat_alg_addsub_translated (a b : Elem) :
+    SqiGen.QuatAlg.quat_alg_coord_add a.coord.x0 a.coord.x1 a.coord.x2 a.coord.x3 b.coord.x0 b.coord.x1 b.coord.x2 b.coord.x3
+      = QuatAlgText.vtup (a.coord.add b.coord) ∧
+    SqiGen.QuatAlg.quat_alg_coord_sub a.coord.x0 a.coord.x1 a.coord.x2 a.coord.x3 b.coord.x0 b.coord.x1 b.coord.x2 b.coord.x3
+      = QuatAlgText.vtup (a.coord.sub b.coord) ∧
+    SqiGen.QuatAlg.quat_alg_add a.denom a.coord.x0 a.coord.x1 a.coord.x2 a.coord.x3
+        b.denom b.coord.x0 b.coord.x1 b.coord.x2 b.coord.x3 = QuatAlgText.tup (algAdd a b) ∧
+    SqiGen.QuatAlg.quat_alg_sub a.denom a.coord.x0 a.coord.x1 a.coord.x2 a.coord.x3
+        b.denom b.coord.x0 b.coord.x1 b.coord.x2 b.coord.x3 = QuatAlgText.tup (algSub a b) :=
+  ⟨QuatAlgText.coord_add_gen _ _, QuatAlgText.coord_sub_gen _ _, QuatAlgText.add_gen a b, QuatAlgText.sub_gen a b⟩
+
+/-- the translated `quat_alg_equal_denom` puts both elements on one non-zero denominator without changing their values -/
+theorem quat_alg_equal_denom_translated_exact (p : ℤ) (a b : Elem) (ha : a.denom ≠ 0) (hb : b.denom ≠ 0) :
+    let r := SqiGen.QuatAlg.quat_alg_equal_denom a.denom a.coord.x0 a.coord.x1 a.coord.x2 a.coord.x3
+        b.denom b.coord.x0 b.coord.x1 b.coord.x2 b.coord.x3
+    let ra : Elem := ⟨r.1, ⟨r.2.1, r.2.2.1, r.2.2.2.1, r.2.2.2.2.1⟩⟩
+    let rb : Elem := ⟨r.2.2.2.2.2.1, ⟨r.2.2.2.2.2.2.1, r.2.2.2.2.2.2.2.1, r.2.2.2.2.2.2.2.2.1, r.2.2.2.2.2.2.2.2.2⟩⟩
+    val p ra = val p a ∧ val p rb = val p b ∧ ra.denom = rb.denom ∧ ra.denom ≠ 0 := by
+  intro r ra rb
+  have h : r = _ := QuatAlgText.equal_denom_gen a b
+  have hra : ra = (equalDenom a b).1 := by simp only [ra, h]
+  have hrb : rb = (equalDenom a b).2 := by simp only [rb, h]
+  rw [hra, hrb]
+  exact equalDenom_spec p a b ha hb
+
+/-- the translated C text of `quat_alg_add` is addition in `H p` (all coordinates, all non-zero denominators) -/
+theorem quat_alg_add_translated_exact (p : ℤ) (a b : Elem) (ha : a.denom ≠ 0) (hb : b.denom ≠ 0) :
+    let r := QuatAlgText.ofTup (SqiGen.QuatAlg.quat_alg_add a.denom a.coord.x0 a.coord.x1 a.coord.x2 a.coord.x3
+        b.denom b.coord.x0 b.coord.x1 b.coord.x2 b.coord.x3)
+    val p r = val p a + val p b ∧ r.denom ≠ 0 := by
+  intro r
+  have h : r = algAdd a b := by simp only [r, QuatAlgText.add_gen, QuatAlgText.ofTup_tup]
+  rw [h]; exact algAdd_val p a b ha hb
+
+/-- the translated C text of `quat_alg_sub` is subtraction in `H p` -/
+theorem quat_alg_sub_translated_exact (p : ℤ) (a b : Elem) (ha : a.denom ≠ 0) (hb : b.denom ≠ 0) :
+    let r := QuatAlgText.ofTup (SqiGen.QuatAlg.quat_alg_sub a.denom a.coord.x0 a.coord.x1 a.coord.x2 a.coord.x3
+        b.denom b.coord.x0 b.coord.x1 b.coord.x2 b.coord.x3)
+    val p r = val p a - val p b ∧ r.denom ≠ 0 := by
+  intro r
+  have h : r = algSub a b := by simp only [r, QuatAlgText.sub_gen, QuatAlgText.ofTup_tup]
+  rw [h]; exact algSub_val p a b ha hb
+
+/-- the translated C text of `quat_alg_conj` is the canonical involution of `H p` -/
+theorem quat_alg_conj_translated_exact (p : ℤ) (x : Elem) :
+    val p (QuatAlgText.ofTup (SqiGen.QuatAlg.quat_alg_conj x.denom x.coord.x0 x.coord.x1 x.coord.x2 x.coord.x3))
+      = star (val p x) := by
+  rw [quat_alg_conj_translated]; exact algConj_val p x
+
+/-- the translated C text of `quat_alg_norm` (conj, mul, then `ibq_set` of coord[0] and denom — `ibq_set` = the model's
+    canonicalisation `ibqSet`) returns the reduced norm of the value -/
+theorem quat_alg_norm_translated_exact (p : ℤ) (a : Elem) (ha : a.denom ≠ 0) :
+    let r := SqiGen.QuatAlg.quat_alg_norm p a.denom a.coord.x0 a.coord.x1 a.coord.x2 a.coord.x3
+    qval (ibqSet r.1 r.2) = some (nrm (val p a)) := by
+  intro r
+  have h : ibqSet r.1 r.2 = algNorm p a := QuatAlgText.norm_gen p a
+  rw [h]; exact algNorm_val p a ha
+
+/-- the translated C text of `quat_alg_trace` returns the reduced trace of the value -/
+theorem quat_alg_trace_translated_exact (p : ℤ) (a : Elem) (ha : a.denom ≠ 0) :
+    let r := SqiGen.QuatAlg.quat_alg_trace a.denom a.coord.x0 a.coord.x1 a.coord.x2 a.coord.x3
+    qval (ibqSet r.1 r.2) = some (trc (val p a)) := by
+  intro r
+  have h : ibqSet r.1 r.2 = algTrace a := QuatAlgText.trace_gen a
+  rw [h]; exact algTrace_val p a ha
+
+/-- generated = hand model for the setters `quat_alg_scalar`, `quat_alg_elem_copy_ibz`, `quat_alg_elem_mul_by_scalar` -/
+theorem quat_alg_setters_translated (n d c0 c1 c2 c3 s : ℤ) (x : Elem) :
+    SqiGen.QuatAlg.quat_alg_scalar n d = QuatAlgText.tup (algScalar n d) ∧
+    SqiGen.QuatAlg.quat_alg_elem_copy_ibz d c0 c1 c2 c3 = QuatAlgText.tup ⟨d, ⟨c0, c1, c2, c3⟩⟩ ∧
+    SqiGen.QuatAlg.quat_alg_elem_mul_by_scalar s x.denom x.coord.x0 x.coord.x1 x.coord.x2 x.coord.x3 =
+      QuatAlgText.tup (elemMulByScalar s x) :=
+  ⟨QuatAlgText.scalar_gen n d, QuatAlgText.copy_ibz_gen d c0 c1 c2 c3, QuatAlgText.mul_by_scalar_gen s x⟩
+
+/-- the translated C text of `quat_alg_elem_is_zero` / `quat_alg_coord_is_zero` (`res &= ibz_is_zero(..)` over the four
+    coordinates, C int 0/1 read as Bool) = the model, and it decides "the value is 0 in `H p`" for a non-zero denominator -/
+theorem quat_alg_is_zero_translated_exact (p : ℤ) (x : Elem) (hx : x.denom ≠ 0) :
+    SqiGen.QuatAlg.quat_alg_coord_is_zero x.coord.x0 x.coord.x1 x.coord.x2 x.coord.x3 = x.coord.isZero ∧
+    SqiGen.QuatAlg.quat_alg_elem_is_zero x.denom x.coord.x0 x.coord.x1 x.coord.x2 x.coord.x3 = elemIsZero x ∧
+    (SqiGen.QuatAlg.quat_alg_elem_is_zero x.denom x.coord.x0 x.coord.x1 x.coord.x2 x.coord.x3 = true ↔ val p x = 0) := by
+  refine ⟨QuatAlgText.coord_is_zero_gen _, QuatAlgText.elem_is_zero_gen x, ?_⟩
+  rw [QuatAlgText.elem_is_zero_gen]
+  have hd : (x.denom : ℚ) ≠ 0 := by exact_mod_cast hx
+  obtain ⟨d, ⟨x0, x1, x2, x3⟩⟩ := x
+  have hd' : (d : ℚ) ≠ 0 := hd
+  simp only [elemIsZero, Vec4.isZero, val, Bool.and_eq_true, beq_iff_eq, QuaternionAlgebra.ext_iff,
+    QuaternionAlgebra.re_zero, QuaternionAlgebra.imI_zero, QuaternionAlgebra.imJ_zero, QuaternionAlgebra.imK_zero,
+    div_eq_zero_iff, Int.cast_eq_zero, and_assoc, hd', or_false]
+
+example : SqiGen.QuatAlg.quat_alg_sub 2 1 2 3 4 3 5 6 7 8 = (6, -7, -6, -5, -4) := by decide
 
 /-- tie T: the entry scan of `ibz_mat_4x4_gcd` as translated from the current C text is the model's content of ALL 16
     entries (a scan restricted to part of the matrix — seeded change C14-m2 — breaks this proof at `lake build`) -/
